@@ -179,12 +179,13 @@ fn gen_leaf(ty: Ty, depth: u32) -> BoxedStrategy<Leaf> {
         Ty::Bytes32 => fixed_bytes(32).prop_map(Leaf::Bytes).boxed(),
         Ty::Bytes64 => fixed_bytes(64).prop_map(Leaf::Bytes).boxed(),
         Ty::Str => string_any().prop_map(Leaf::Str).boxed(),
-        // a path destined for a `string` field: UTF-8 text (relative, absolute, empty, with NUL and
-        // multi-byte characters), and - rarely - raw bytes that are not UTF-8
+        // a path destined for a `string` field: UTF-8 text only (a protobuf string holds UTF-8; arbitrary
+        // paths go through `bytes` x `PathBuf`): empty, relative, absolute, doubled / trailing
+        // separators, dots, NUL, multi-byte characters, long
         Ty::StrPath => prop_oneof![
-            30 => string_any().prop_map(|s| Leaf::Bytes(s.into_bytes())),
-            9 => (string_any(), string_any()).prop_map(|(a, b)| Leaf::Bytes(format!("/{a}/{b}").into_bytes())),
-            1 => bytes_any().prop_map(Leaf::Bytes),
+            6 => string_any().prop_map(|s| Leaf::Bytes(s.into_bytes())),
+            2 => (string_any(), string_any()).prop_map(|(a, b)| Leaf::Bytes(format!("/{a}/{b}").into_bytes())),
+            1 => (string_any(), prop::sample::select(vec!["", "/", "//", ".", "..", "./", "../", "a/./b", "a//b/", "/."])).prop_map(|(a, b)| Leaf::Bytes(format!("{b}{a}{b}").into_bytes())),
         ]
         .boxed(),
         Ty::Msg(sub) => gen_msg(sub, depth + 1).prop_map(|d| Leaf::Msg(Box::new(d))).boxed(),
